@@ -1,7 +1,9 @@
 (* Proofs/PipelineSProofs.v -- SELECT from the QUERY TEXT (Model/PipelineS.v): the glue theorem and
    the property theorems of the plan nodes lifted to the text.
 
-     1. front_s is ParseCheck.parse_check without its last stage       front_s_parse_check
+     1. parse_check is front_s followed by ParseCheck.plan_stage        front_s_parse_check,
+                                                                       front_s_reject_parse_check,
+                                                                       plan_stmt_text_parse_check
      2. the glue: what an accepted text plans and runs                 plan_stmt_text_inv,
                                                                        select_stmt_text_is_shape_run
      3. C03 at text level                                              batch_row_agree_text
@@ -65,42 +67,105 @@ Notation shape_batch := (select_shape_batch fo re ag pi pf).
 
 (* ================================================================ 1. front_s and parse_check *)
 
-(* [to_check_s] is ParseCheck.to_check wherever that one answers *)
-Lemma to_check_s_agrees x c : to_check (StmtParser.StSelect x) = Some c -> to_check_s x = Some c.
+(* [to_check_s] is ParseCheck.to_check on a SELECT *)
+Lemma to_check_s_agrees x : to_check (StmtParser.StSelect x) = to_check_s x.
+Proof. reflexivity. Qed.
+
+(* the checker hands the ORDER BY items through *)
+Lemma check_stmt_select_order fields w order c2 :
+  Checker.check_stmt fo true (Checker.SSelect fields w order) = Value.Ok c2 ->
+  exists fields2 w2, c2 = Checker.SSelect fields2 w2 order.
 Proof.
-  cbn [to_check]. unfold to_check_s.
-  destruct (negb (Nat.eqb (List.length (StmtParser.s_names x)) (List.length (s_fields x)))); [discriminate|].
-  destruct (match s_group x with Some _ => _ | None => _ end); [discriminate | auto].
+  cbn [Checker.check_stmt]. unfold Checker.check_select. intros E1.
+  repeat (apply bind_ok' in E1; destruct E1 as (? & _ & E1)). injection E1 as <-. eauto.
 Qed.
 
-(* an accepted front end is parse_check up to its last stage: for a statement the checker twin of
-   Model/ParseCheck.v takes (to_check: no GROUP BY together with a field name inside a select
-   field), parse_check accepts the same statement, or rejects it in its plan stage (which looks at
-   the fields before they are folded; PipelineS redoes that stage on the folded fields) *)
+(* parse_check IS front_s followed by ParseCheck.plan_stage -- optimizeSelectExpressions on the
+   select fields and the tests of buildFinalPlan on the folded fields, the same two things
+   [plan_of_front] does with the result of front_s.  Unfolded:
+     parse_check fo re fmt_v q =
+       if existsb (fun nf => fold_oom fo re fmt_v (snd nf)) fields then PCOutOfModel
+       else match plan_select x (map (fun nf => (fst nf, exec_of (snd nf))) fields) with
+            | PlErr z => PCErr KPlan z
+            | PlProjection => PCOk (StSelect x) (SSelect fields w (order_items (s_order x))) false
+            | PlAggregate => PCOk (StSelect x) (SSelect fields w (order_items (s_order x))) true
+            end *)
 Theorem front_s_parse_check q x fields w :
   front_s q = STOk (x, fields, w) ->
-  to_check (StmtParser.StSelect x) = None \/
-  (exists b, parse_check fo q = PCOk (StmtParser.StSelect x)
-                                   (Checker.SSelect fields w (order_items (StmtParser.s_order x))) b) \/
-  (exists z, parse_check fo q = PCErr KPlan z).
+  parse_check fo re fmt_v q =
+  plan_stage fo re fmt_v (StmtParser.StSelect x)
+             (Checker.SSelect fields w (order_items (StmtParser.s_order x))).
 Proof.
   unfold PipelineS.front_s, parse_check. destruct (pc_oom fo q (lex q)); [discriminate|].
   destruct (head_kind (lex q)); try discriminate.
   destruct (parse_real fo (lex q)) as [s|z| |]; try discriminate.
   destruct s as [x0| | |]; try discriminate.
-  unfold check_parsed. destruct (to_check_s x0) as [c|] eqn:Etc; [|discriminate].
+  unfold check_parsed. rewrite to_check_s_agrees. destruct (to_check_s x0) as [c|] eqn:Etc; [|discriminate].
   intros H. apply stbind_ok in H. destruct H as (c2 & E1 & H). apply of_front_ok in E1.
   apply stbind_ok in H. destruct H as (u & E2 & H). apply of_front_ok in E2.
   destruct c2 as [fields2 w2 order2| | |]; try discriminate. injection H as <- <- <-.
-  destruct (to_check (StmtParser.StSelect x0)) as [c'|] eqn:Etc'; [|left; reflexivity]. right.
-  pose proof Etc as Etc2. rewrite (to_check_s_agrees _ _ Etc') in Etc2. injection Etc2 as ->.
-  rewrite E1, E2. destruct u.
+  rewrite E1, E2.
   assert (order2 = order_items (StmtParser.s_order x0)) as ->.
   { unfold to_check_s in Etc.
     destruct (negb (Nat.eqb (List.length (StmtParser.s_names x0)) (List.length (s_fields x0)))); [discriminate|].
-    injection Etc as <-. cbn [Checker.check_stmt] in E1. unfold Checker.check_select in E1.
-    repeat (apply bind_ok' in E1; destruct E1 as (? & _ & E1)). congruence. }
-  destruct (plan_check _ _) eqn:Ep; [left; eauto | left; eauto | right; eauto].
+    injection Etc as <-. apply check_stmt_select_order in E1. destruct E1 as (? & ? & E1). congruence. }
+  reflexivity.
+Qed.
+
+(* the same, spelled out *)
+Corollary front_s_parse_check_unfolded q x fields w :
+  front_s q = STOk (x, fields, w) ->
+  parse_check fo re fmt_v q =
+  let c := Checker.SSelect fields w (order_items (StmtParser.s_order x)) in
+  if existsb (fun nf => fold_oom fo re fmt_v (snd nf)) fields then PCOutOfModel
+  else match plan_select x (map (fun nf => (fst nf, exec_of (snd nf))) fields) with
+       | PlErr z => PCErr KPlan z
+       | PlProjection => PCOk (StmtParser.StSelect x) c false
+       | PlAggregate => PCOk (StmtParser.StSelect x) c true
+       end.
+Proof. exact (front_s_parse_check q x fields w). Qed.
+
+(* a rejection of front_s is a rejection of parse_check at the same position, ahead of its plan
+   stage *)
+Theorem front_s_reject_parse_check q z :
+  front_s q = STReject z -> exists k, k <> KPlan /\ parse_check fo re fmt_v q = PCErr k z.
+Proof.
+  unfold PipelineS.front_s, parse_check. destruct (pc_oom fo q (lex q)); [discriminate|].
+  destruct (head_kind (lex q)); try discriminate.
+  destruct (parse_real fo (lex q)) as [s|z'| |]; try discriminate.
+  - destruct s as [x0| | |]; try discriminate.
+    unfold check_parsed. rewrite to_check_s_agrees. destruct (to_check_s x0) as [c|]; [|discriminate].
+    destruct (Checker.check_stmt fo true c) as [c2|[p|p|]| |]; cbn [of_front stbind]; try discriminate.
+    + destruct (Checker.check_stmt_calls c2) as [u|[p|p|]| |]; cbn [of_front stbind]; try discriminate.
+      * destruct c2; discriminate.
+      * intros H. injection H as <-. exists KCalls. split; [discriminate|reflexivity].
+    + intros H. injection H as <-. exists KCheck. split; [discriminate|reflexivity].
+  - intros H. injection H as <-.
+    destruct (sres_is_err (StmtParser.parse_statement (lex q)) z'); eexists; (split; [|reflexivity]); discriminate.
+Qed.
+
+(* C03's text twin and C17's composite twin accept the same texts with the same trees: what
+   plan_stmt_text plans, parse_check accepts -- the parser's statement, the checked fields, the
+   checked WHERE tree, and whether buildFinalPlan builds an AggregatePlan *)
+Theorem plan_stmt_text_parse_check q pl :
+  plan_stmt_text q = STOk pl ->
+  parse_check fo re fmt_v q =
+  PCOk (StmtParser.StSelect (sp_select fo pl))
+       (Checker.SSelect (sp_fields fo pl) (sp_where fo pl) (order_items (StmtParser.s_order (sp_select fo pl))))
+       (match s_aggr (F fo) (q_stmt fo (sp_q fo pl)) with Some _ => true | None => false end).
+Proof.
+  unfold PipelineS.plan_stmt_text. intros H. apply stbind_ok in H. destruct H as ([[x fields] w] & Ef & H).
+  cbn [fst snd] in H. rewrite (front_s_parse_check q x fields w Ef).
+  unfold PipelineS.plan_of_front in H.
+  destruct (limit_of (StmtParser.s_limit x)) as [limit|]; [|discriminate].
+  destruct (fold_oom fo re fmt_v w || existsb (fun nf => fold_oom fo re fmt_v (snd nf)) fields) eqn:Eo; [discriminate|].
+  apply orb_false_iff in Eo. destruct Eo as [_ Eo].
+  unfold plan_stage, plan_oom, plan_check, fold_fields. rewrite Eo.
+  change (fun nf : string * expr => (fst nf, FoldStmt.exec_tree fo re fmt_v (snd nf)))
+    with (fun nf : string * expr => (fst nf, exec_of (snd nf))).
+  destruct (plan_select x _) eqn:Ep; try discriminate.
+  - injection H as <-. reflexivity.
+  - apply stbind_ok in H. destruct H as (sp & Es & H). injection H as <-. reflexivity.
 Qed.
 
 (* ================================================================ 2. the glue *)
